@@ -102,6 +102,12 @@ def cases():
     out.append(('{InPerson: {name: 1, age: 1}}', {'Echo_InPerson': '{age: 1, name: null}'}))
     out.append(('{InPerson: {name: "a"}}', {'Echo_InPerson': 'null'}))
     out.append(('{InPerson: 1}', {'Echo_InPerson': 'null'}))
+    # a declared component is missing although the context has as many (or more) entries as the type has components
+    out.append(('{InPerson: {name: "a", comment: "x"}}', {'Echo_InPerson': 'null'}))
+    out.append(('{InPerson: {age: 1, comment: "x", other: 2}}', {'Echo_InPerson': 'null'}))
+    out.append(('{InPerson: {comment: "x", other: 2}}', {'Echo_InPerson': 'null'}))
+    out.append(('{InPerson: {}}', {'Echo_InPerson': 'null'}))
+    out.append(('{InPeople: [{name: "a", age: 1}, {name: "b", comment: "x"}]}', {'Echo_InPeople': 'null'}))
     out.append(('{InPeople: [{name: "a", age: 1}, {name: "b", age: 2}]}', {'Echo_InPeople': '[{age: 1, name: "a"}, {age: 2, name: "b"}]'}))
     out.append(('{InPeople: [{name: "a", age: 1}, {name: "b", age: true}]}', {'Echo_InPeople': '[{age: 1, name: "a"}, {age: null, name: "b"}]'}))
     out.append(('{InPeople: [{name: "a", age: 1}, {name: "b"}]}', {'Echo_InPeople': 'null'}))
